@@ -292,8 +292,18 @@ def _dataclass_for(desc) -> type:
     desc = T(desc)
     if desc not in _DC_CACHE:
         fields = [(name, Any, se.dataclass_field(build(child))) for name, child in desc[1]]
-        _DC_CACHE[desc] = dataclasses.make_dataclass("DC", fields)
+        if desc[0] == "dcderived":   # a serializable dataclass extending another one (own class pair per descriptor, build order included)
+            base = dataclasses.make_dataclass("DCBase", fields)
+            extra = [(name, Any, se.dataclass_field(build(child))) for name, child in desc[2]]
+            _DC_CACHE[desc] = (base, dataclasses.make_dataclass("DCDerived", extra, bases=(base,)))
+        else:
+            _DC_CACHE[desc] = dataclasses.make_dataclass("DC", fields)
     return _DC_CACHE[desc]
+
+
+def _members(d):
+    """(name, child) members of a Template / Dataclass descriptor; a derived dataclass has its base's fields first."""
+    return tuple(d[1]) + tuple(d[2]) if d[0] == "dcderived" else tuple(d[1])
 
 
 def _opt_key(k):
@@ -417,6 +427,14 @@ def build(desc) -> Any:
         return se.Template({n: build(c) for n, c in d[1]}, skip_missing=d[2])
     if k == "dataclass":
         return se.Dataclass(_dataclass_for(d))
+    if k == "dcderived":
+        base, derived = _dataclass_for(d)
+        if d[3] == "base-first":     # the spec of the base class is built before the derived one's (as TransferParamsSerializer does)
+            se.Dataclass(base)
+            return se.Dataclass(derived)
+        spec = se.Dataclass(derived)
+        se.Dataclass(base)
+        return spec
     if k == "enumswitch":
         return se.EnumSwitch(se.IntEnum(E8, getattr(se, d[1])), {E8(m): build(c) for m, c in d[2]})
     if k == "flagswitch":
@@ -614,8 +632,8 @@ def _children(d):
         return [(d[1], False)]
     if k == "tuple":
         return [(c, True) for c in d[1]]
-    if k in ("template", "dataclass"):
-        return [(c, True) for _, c in d[1]]
+    if k in ("template", "dataclass", "dcderived"):
+        return [(c, True) for _, c in _members(d)]
     if k in ("enumswitch", "flagswitch"):
         return [(c, False) for _, c in d[2]]
     if k == "lenswitch":
@@ -838,22 +856,27 @@ def _dom_raw(d, env) -> List[Val]:
         rows = _seq_rows([c for c in d[1]], env, lambda row: [v.rich for v in row])
         return [Val([v.rich for v in r], [v.pod for v in r], _cat(*[v.enc for v in r]), any(v.eof for v in r),
                     [v.trich for v in r], [v.tpod for v in r]) for r in rows]
-    if k in ("template", "dataclass"):
-        names = [n for n, _ in d[1]]
-        rows = _seq_rows([c for _, c in d[1]], env, lambda row: {n: v.rich for n, v in zip(names, row)})
+    if k in ("template", "dataclass", "dcderived"):
+        members = _members(d)
+        names = [n for n, _ in members]
+        rows = _seq_rows([c for _, c in members], env, lambda row: {n: v.rich for n, v in zip(names, row)})
         out = []
         for r in rows:
             enc, eof = _cat(*[v.enc for v in r]), any(v.eof for v in r)
-            if k == "dataclass":
+            # an absent OPTIONAL member may be spelled ``name: None`` or left out of the dict altogether -- same value, same bytes.
+            # The twin leaves such keys out (and reverses the rest); with skip_missing the canonical (read-back) form omits them too.
+            absent = [c[0] in OPTIONAL_KINDS and v.rich is None for (_, c), v in zip(members, r)]
+            if k != "template":
                 cls = _dataclass_for(d)
+                cls = cls[1] if k == "dcderived" else cls
                 out.append(Val(cls(**{n: v.rich for n, v in zip(names, r)}), {n: v.pod for n, v in zip(names, r)}, enc, eof,
-                               cls(**{n: v.trich for n, v in zip(names, r)}), _rev({n: v.tpod for n, v in zip(names, r)})))
+                               cls(**{n: v.trich for n, v in zip(names, r)}), _rev({n: v.tpod for n, v, a in zip(names, r, absent) if not a})))
             else:
-                skip = [d[2] and c[0] in ("optprefixed", "optflagged") and v.rich is None for (_, c), v in zip(d[1], r)]
+                skip = [d[2] and a for a in absent]
                 out.append(Val({n: v.rich for n, v, s in zip(names, r, skip) if not s},
                                {n: v.pod for n, v, s in zip(names, r, skip) if not s}, enc, eof,
-                               _rev({n: v.trich for n, v, s in zip(names, r, skip) if not s}),
-                               _rev({n: v.tpod for n, v, s in zip(names, r, skip) if not s})))
+                               _rev({n: v.trich for n, v, a in zip(names, r, absent) if not a}),
+                               _rev({n: v.tpod for n, v, a in zip(names, r, absent) if not a})))
         return out
     if k == "enumswitch":
         out = []
@@ -973,7 +996,8 @@ def _okey(x) -> str:
     return repr(x)
 
 
-MAPPING_ROOTS = ("template", "flagswitch", "bitfield", "bfdc", "dataclass")
+MAPPING_ROOTS = ("template", "flagswitch", "bitfield", "bfdc", "dataclass", "dcderived")
+OPTIONAL_KINDS = ("optprefixed", "optflagged")    # combinators with OPTIONAL = True: Template fetches them with values.get(name)
 
 
 def order_variants(desc, val: Val) -> List[Tuple[Any, Any]]:
@@ -1001,6 +1025,14 @@ def order_variants(desc, val: Val) -> List[Tuple[Any, Any]]:
         pr, pp = perms(val.rich), perms(val.pod)
         for i in range(max(len(pr), len(pp))):
             add(pr[i % len(pr)], pp[i % len(pp)])
+        if d[0] in ("template", "dataclass", "dcderived"):
+            # absent OPTIONAL members left out of the dict (spec order otherwise): each one alone, and all of them
+            opt = [n for n, c in _members(d) if c[0] in OPTIONAL_KINDS]
+
+            def drop(x, keys):
+                return {k: v for k, v in x.items() if not (k in keys and v is None)} if type(x) is dict else x
+            for keys in [[n] for n in opt] + [opt]:
+                add(drop(val.rich, keys), drop(val.pod, keys))
     return out
 
 
@@ -1041,7 +1073,7 @@ _LABEL = {"prim": lambda d: d[1], "bytearray": lambda d: f"ByteArray({d[1]})", "
           "typedterm": lambda d: "TypedBytesTerminated(%s)" % ",".join(
               x for x in (bytes(d[2]).hex(), "empty_is_none" if d[3] else "", "lazy" if d[4] else "", _nct(d, 5)[1:]) if x),
           "dict": lambda d: "MultiDictAdapter" if d[1] else "DictAdapter", "tuple": lambda d: "Tuple",
-          "template": lambda d: "Template(skip_missing)" if d[2] else "Template", "dataclass": lambda d: "Dataclass",
+          "template": lambda d: "Template(skip_missing)" if d[2] else "Template", "dataclass": lambda d: "Dataclass", "dcderived": lambda d: f"Dataclass(derived,{d[3]})",
           "enumswitch": lambda d: f"EnumSwitch({d[1]})", "flagswitch": lambda d: f"FlagSwitch({d[1]})", "lenswitch": lambda d: "LengthSwitch",
           "optflagged": lambda d: f"OptionalFlagged({d[1]}&{d[3]})", "ctxswitch": lambda d: f"ContextSwitch({_keylabel(d[1])})",
           "ctxadapter": lambda d: f"ContextAdapter({_keylabel(d[1])})"}
@@ -1326,6 +1358,19 @@ def families() -> List[tuple]:
         ADS2 = ((0, ("a_bool",)), (1, ("a_expr",)), ("*", ("a_id",)))
         out += [("template", (("k", U8), ("vs", ("coll", ln, ("ctxadapter", (1, "k"), U8, ADS2)))), False),
                 ("template", (("k", U8), ("vs", ("coll", ln, ("tuple", (("ctxadapter", ("root", "k", "attr"), U8, ADS2), U8))))), False)]
+    # a dataclass extending another serializable dataclass, specs built base-first and derived-first (own class pair each)
+    for a in BASIS:
+        for b in BASIS2:
+            for order in ("base-first", "derived-first"):
+                out.append(("dcderived", (("x", U8), ("p", a)), (("y", b), ("z", P("S16"))), order))
+        for order in ("base-first", "derived-first"):
+            out.append(("coll", "U8", ("dcderived", (("p", a),), (("q", U8),), order)))
+            out.append(("dcderived", (("p", ("optprefixed", a)),), (("q", ("optprefixed", U8)), ("r", U8)), order))
+        # templates whose OPTIONAL members may be left out of the value dict, at several nesting depths
+        out.append(("template", (("a", ("optprefixed", a)), ("b", U8), ("c", ("optprefixed", CSTR))), False))
+        out.append(("template", (("a", ("optprefixed", a)), ("b", U8), ("c", ("optprefixed", CSTR))), True))
+        out.append(("coll", "U8", ("template", (("o", ("optprefixed", a)), ("n", U8)), False)))
+        out.append(("typedbytearray", "U8", ("template", (("n", U8), ("o", ("optprefixed", a))), False), False, False))
     out += [("tuple", ()), ("template", (), False), ("lenswitch", ((1, U8), (2, P("U16")), (16, ("uuid",))))]
     for a in BASIS:
         out += [("tuple", (a,)), ("tuple", (U8, P("S16"), a)), ("template", (("only", a),), False),
